@@ -47,6 +47,22 @@ type Options struct {
 	// SquashMerges: an open side lane may be taken over by a squash commit (one parent, the side lane's net
 	// change as its diff) instead of a merge commit; the side lane stays unmerged. Needs Merges.
 	SquashMerges bool
+
+	// Options added after seed C14-r4 (blanks at the edges of log lines). All default to off, and with all of
+	// them off the sequence of draws is unchanged.
+	//
+	// TrailingBlankPaths: path components that END with one or two blanks ("notes ", "old /keep ", "g.txt  "),
+	// components with a blank at both ends (" x "), "twins" = a new path that differs from a path of the tree
+	// (possibly one touched in the same commit) only by a blank appended to one of its components, and - only
+	// together with LeadingBlankPaths, because such a name also begins with a blank - components that consist of
+	// blanks only (files " ", "  "; directories "a/   /f.txt"). git prints all of these as they are (nothing to C-quote).
+	TrailingBlankPaths bool
+	// BlankRunPaths: path components with a run of two blanks inside ("two  blanks.md", "d  ir", "read  me.txt"
+	// next to "read me.txt").
+	BlankRunPaths bool
+	// EmptySubjects: a commit may have no message at all (`git commit --allow-empty-message -m ""`): %s is
+	// empty and the commit line ends with the blank that follows the date.
+	EmptySubjects bool
 }
 
 var (
@@ -74,6 +90,21 @@ var (
 	namePoolAffix   = []string{"f.txt.orig", "xf.txt", "Makefile.am", "main.go.bak", "a-main.go"}
 	dirPoolBlank    = []string{" x", "a/ lead"}
 	namePoolBlank   = []string{" lead.txt", " 1 x.md"}
+
+	// blanks at the end of a component; the last entries of every pool are near-twins of plain pool entries
+	dirPoolTrail  = []string{"old ", "a/b ", "t  /sub", "a "}
+	namePoolTrail = []string{"notes ", "keep  ", "Makefile ", "g.txt  ", "f.txt "}
+	compPoolTrail = []string{"kept ", "sub "}
+	// blanks at both ends / nothing but blanks (these also begin with a blank). A file name is never a
+	// directory name as well, also not after blanks have been appended to either (a merge must not meet a file
+	// where the other lane has a directory): files of one or two blanks, directories of three, and no name
+	// here or above that is a directory component elsewhere once the blanks at its end are cut.
+	dirPoolOnlyBlank  = []string{"   ", "a/   ", " in /sub"}
+	namePoolOnlyBlank = []string{" y ", "  ", " "}
+	compPoolOnlyBlank = []string{"   "}
+	// a run of blanks inside a component
+	dirPoolRun  = []string{"d  ir"}
+	namePoolRun = []string{"two  blanks.md", "read  me.txt"}
 
 	branchPool  = []string{"side", "feature/x", "fix-123", "release/1.2", "hotfix/2019-12-31", "dependabot/npm_and_yarn/lodash-4.17.21", "main", "master", "b"}
 	tagPool     = []string{"v1.0", "v1.2.3", "release-2", "1.0.0-rc.1"}
@@ -138,6 +169,27 @@ func (g *genState) dirs() []string {
 	if g.o.LeadingBlankPaths {
 		out = append(append([]string{}, out...), dirPoolBlank...)
 	}
+	if g.o.BlankRunPaths {
+		out = append(append([]string{}, out...), dirPoolRun...)
+	}
+	if g.o.TrailingBlankPaths {
+		out = append(append([]string{}, out...), dirPoolTrail...)
+		if g.o.LeadingBlankPaths {
+			out = append(out, dirPoolOnlyBlank...)
+		}
+	}
+	return out
+}
+
+// comps is the pool of single directory components a rename puts in.
+func (g *genState) comps() []string {
+	out := compPool
+	if g.o.TrailingBlankPaths {
+		out = append(append([]string{}, out...), compPoolTrail...)
+		if g.o.LeadingBlankPaths {
+			out = append(out, compPoolOnlyBlank...)
+		}
+	}
 	return out
 }
 
@@ -152,6 +204,15 @@ func (g *genState) names() []string {
 	if g.o.LeadingBlankPaths {
 		out = append(append([]string{}, out...), namePoolBlank...)
 	}
+	if g.o.BlankRunPaths {
+		out = append(append([]string{}, out...), namePoolRun...)
+	}
+	if g.o.TrailingBlankPaths {
+		out = append(append([]string{}, out...), namePoolTrail...)
+		if g.o.LeadingBlankPaths {
+			out = append(out, namePoolOnlyBlank...)
+		}
+	}
 	return out
 }
 
@@ -165,9 +226,14 @@ func (g *genState) authorNames() []string {
 // free makes candidate p usable in tree work: when it is occupied or already touched in
 // this commit, a fresh name in the same directory is taken instead.
 func (g *genState) free(p string, work Tree, touched map[string]bool) string {
-	for conflicts(work, p) || touched[p] {
+	for try := 0; conflicts(work, p) || touched[p]; try++ {
 		dir, _ := splitPath(p)
 		g.fresh++
+		if try >= 2 {
+			// the directory itself is taken by a file (a file " " and a directory " " once names may consist
+			// of blanks): a fresh directory at the root
+			dir = fmt.Sprintf("d%d", g.fresh)
+		}
 		p = join(dir, fmt.Sprintf("n%d.txt", g.fresh))
 	}
 	return p
@@ -178,6 +244,18 @@ func (g *genState) newPath(work Tree, touched map[string]bool) string {
 	if len(g.grave) > 0 && rapid.IntRange(0, 4).Draw(t, "recreate") == 4 {
 		p := rapid.SampledFrom(g.grave).Draw(t, "oldPath")
 		if !conflicts(work, p) && !touched[p] {
+			return p
+		}
+	}
+	if g.o.TrailingBlankPaths && len(work) > 0 && rapid.IntRange(0, 7).Draw(t, "twin") == 7 {
+		// the twin of a path of the tree (also of one this commit has just added or touched): the same path
+		// with one or two blanks appended to one of its components, the last one more often than not
+		paths := work.Paths()
+		parts := strings.Split(paths[rapid.IntRange(0, len(paths)-1).Draw(t, "twinOf")], "/")
+		at := len(parts) - 1 - rapid.IntRange(0, len(parts)-1).Draw(t, "twinComponent")
+		blankOnly := strings.TrimRight(parts[at], " ") == "" // longer runs of blanks are directory names
+		parts[at] += strings.Repeat(" ", rapid.IntRange(1, 2).Draw(t, "twinBlanks"))
+		if p := strings.Join(parts, "/"); !blankOnly && !conflicts(work, p) && !touched[p] {
 			return p
 		}
 	}
@@ -207,23 +285,23 @@ func (g *genState) renameTarget(p string, work Tree, touched map[string]bool) st
 			cand = join(strings.Join(parts[:len(parts)-1], "/"), name)
 		}
 	case 4: // one directory down
-		cand = join(join(dir, rapid.SampledFrom(compPool).Draw(t, "comp")), name)
+		cand = join(join(dir, rapid.SampledFrom(g.comps()).Draw(t, "comp")), name)
 	case 5: // other directory and other name
 		cand = join(rapid.SampledFrom(g.dirs()).Draw(t, "dir"), rapid.SampledFrom(g.names()).Draw(t, "name"))
 	case 6: // first directory component replaced
 		if len(parts) > 0 {
-			q := append([]string{rapid.SampledFrom(compPool).Draw(t, "comp")}, parts[1:]...)
+			q := append([]string{rapid.SampledFrom(g.comps()).Draw(t, "comp")}, parts[1:]...)
 			cand = join(strings.Join(q, "/"), name)
 		}
 	case 7: // some directory component replaced
 		if len(parts) > 0 {
 			i := rapid.IntRange(0, len(parts)-1).Draw(t, "compAt")
 			q := append([]string{}, parts...)
-			q[i] = rapid.SampledFrom(compPool).Draw(t, "comp")
+			q[i] = rapid.SampledFrom(g.comps()).Draw(t, "comp")
 			cand = join(strings.Join(q, "/"), name)
 		}
 	case 8: // a directory put in front
-		cand = join(join(rapid.SampledFrom(compPool).Draw(t, "comp"), dir), name)
+		cand = join(join(rapid.SampledFrom(g.comps()).Draw(t, "comp"), dir), name)
 	}
 	if cand == "" || cand == p {
 		cand = join(dir, rapid.SampledFrom(g.names()).Draw(t, "name"))
@@ -444,6 +522,9 @@ func (g *genState) quotable(c Commit, earlier []Commit) string {
 		if len(e.Subject) > 120 {
 			continue // citations of citations do not grow without bound
 		}
+		if e.Subject == "" {
+			continue // `fixup! ` would end with a blank, which git strips from a subject
+		}
 		ok = append(ok, e.Subject)
 	}
 	if len(ok) > 0 && rapid.IntRange(0, 2).Draw(t, "quoteEarlier") > 0 {
@@ -640,6 +721,9 @@ func Gen(t *rapid.T, o Options) History {
 				c.Type = reConvType.FindString(c.Subject)
 			}
 		}
+		if o.EmptySubjects && rapid.IntRange(0, 15).Draw(t, "emptySubject") == 15 {
+			c.Subject, c.Type = "", ""
+		}
 		if err := g.st.apply(c); err != nil {
 			panic("ggen: generator produced an invalid operation list: " + err.Error())
 		}
@@ -681,6 +765,15 @@ var (
 	reGenerated   = regexp.MustCompile(`^(Revert "|Reapply "|fixup! |squash! |amend! |Squashed commit of|Initial commit$|WIP on |index on |Bump |Create |Update |Delete |Add files via upload|Rename |Release |Version |Cherry-pick )|^v?\d+\.\d+\S*$|^release-\d+$`)
 )
 
+// trimComponents removes the blanks at the end of every component of a path.
+func trimComponents(p string) string {
+	parts := strings.Split(p, "/")
+	for i := range parts {
+		parts[i] = strings.TrimRight(parts[i], " ")
+	}
+	return strings.Join(parts, "/")
+}
+
 // Features lists the generator features present in a simulated history.
 func Features(sim *Sim) []string {
 	set := map[string]bool{}
@@ -691,6 +784,8 @@ func Features(sim *Sim) []string {
 			set["merge_commit"] = true
 			switch {
 			case s == "Merge branch 'side'":
+			case s == "":
+				set["merge_commit_empty_subject"] = true
 			case reMergeLike.MatchString(s):
 				set["merge_commit_other_merge_subject"] = true
 			case reGenerated.MatchString(s):
@@ -700,6 +795,12 @@ func Features(sim *Sim) []string {
 		}
 		if len(c.Entries) == 0 {
 			set["empty_commit"] = true
+		}
+		if s == "" {
+			set["subject_empty"] = true
+			if len(c.Entries) > 0 {
+				set["subject_empty_on_commit_with_changes"] = true
+			}
 		}
 		if c.Commit.Squash {
 			set["squash_commit"] = true
@@ -769,6 +870,11 @@ func Features(sim *Sim) []string {
 				if strings.HasSuffix(a, b) || strings.HasSuffix(b, a) {
 					set["paths_suffix_of_each_other_in_commit"] = true
 				}
+				if a != b && strings.TrimRight(a, " ") == strings.TrimRight(b, " ") {
+					set["paths_differ_only_by_trailing_blanks_in_commit"] = true
+				} else if a != b && e.Kind != 'R' && f.Kind != 'R' && trimComponents(a) == trimComponents(b) {
+					set["paths_differ_only_by_blanks_at_component_ends_in_commit"] = true
+				}
 			}
 		}
 		for _, r := range c.Commit.Author {
@@ -812,6 +918,30 @@ func Features(sim *Sim) []string {
 			}
 			if e.Added >= 1000 || e.Deleted >= 1000 {
 				set["numstat_4_digits"] = true
+			}
+			for _, p := range []string{e.Old, e.New} {
+				if p == "" {
+					continue
+				}
+				if strings.HasSuffix(p, " ") {
+					set["path_trailing_blank"] = true
+				}
+				if strings.Contains(p, " /") {
+					set["path_component_trailing_blank"] = true
+				}
+				if strings.TrimRight(p, " ") == "" {
+					set["path_only_blanks"] = true
+					if len(c.Entries) > 1 {
+						set["path_only_blanks_in_commit_with_other_changes"] = true
+					}
+				}
+				for _, comp := range strings.Split(p, "/") {
+					if strings.TrimRight(comp, " ") == "" {
+						set["path_component_only_blanks"] = true
+					} else if strings.Contains(strings.Trim(comp, " "), "  ") {
+						set["path_blank_run_inside_component"] = true
+					}
+				}
 			}
 			for _, p := range []string{e.Old, e.New} {
 				if strings.HasPrefix(p, " ") {
